@@ -60,25 +60,29 @@ c19_bytes_are(const void * ptr, size_t len, const uint8_t * bytes, size_t cap, c
 	if (E->n == 1 && E->t[0].kind == AWS_TK_TEXT) {
 		int same = (len == E->t[0].len);
 
-		for (i = 0; i < AWS_TXMAX; i++)
-			if (i < E->t[0].len && i < cap && bytes[i] != E->t[0].text[i])
+		for (i = 0; i < AWS_TXMAX && i < E->t[0].len; i++)
+			if (i < cap && bytes[i] != E->t[0].text[i])
 				same = 0;
 		if (E->t[0].len > cap)
 			same = 0;
 		if (same)
 			ok = 1;
 	}
-	/* (B) the unmodified result of an asprintf call with this normal form */
+	/* (B) the unmodified result of an asprintf call with this normal form (normal forms first: a structural
+	 * mismatch is a constant for the symbolic execution and skips the byte comparison) */
 	for (k = 0; k < AWS_NREC; k++) {
 		if (k < g_aws_fmt.n) {
 			const struct aws_fmt_rec * r = &g_aws_fmt.rec[k];
-			int same = (ptr == (const void *)r->result && len == r->len && len <= cap);
 
-			for (i = 0; i < cap && i < AWS_OUTMAX; i++)
-				if (i < len && bytes[i] != r->snap[i])
-					same = 0;
-			if (same && aws_stream_eq(&r->s, E))
-				ok = 1;
+			if (aws_stream_eq(&r->s, E)) {
+				int same = (!r->failed && ptr == (const void *)r->result && len == r->len && len <= cap);
+
+				for (i = 0; i < cap && i < AWS_OUTMAX; i++)
+					if (i < len && bytes[i] != r->snap[i])
+						same = 0;
+				if (same)
+					ok = 1;
+			}
 		}
 	}
 	return (ok);
@@ -146,13 +150,16 @@ c19_result_is(const char * p, const struct aws_stream * E)
 	for (k = 0; k < AWS_NREC; k++) {
 		if (k < g_aws_fmt.n) {
 			const struct aws_fmt_rec * r = &g_aws_fmt.rec[k];
-			int same = (p == r->result);
 
-			for (i = 0; i < AWS_OUTMAX; i++)
-				if (i <= r->len && (uint8_t)p[i] != r->snap[i])
-					same = 0;
-			if (same && aws_stream_eq(&r->s, E))
-				ok = 1;
+			if (aws_stream_eq(&r->s, E)) {
+				int same = (!r->failed && p == r->result);
+
+				for (i = 0; i < AWS_OUTMAX; i++)
+					if (i <= r->len && (uint8_t)p[i] != r->snap[i])
+						same = 0;
+				if (same)
+					ok = 1;
+			}
 		}
 	}
 	return (ok);
@@ -167,8 +174,8 @@ c19_same_text(const char * s, const struct aws_stream * E)
 
 	if (!same)
 		return (0);
-	for (i = 0; i < AWS_TXMAX; i++)
-		if (i < E->t[0].len && (uint8_t)s[i] != E->t[0].text[i])
+	for (i = 0; i < AWS_TXMAX && i < E->t[0].len; i++)
+		if ((uint8_t)s[i] != E->t[0].text[i])
 			same = 0;
 	if (s[E->t[0].len] != '\0')
 		same = 0;
@@ -246,5 +253,5 @@ c19_alphabet(const uint8_t * s, int is_path)
 	size_t c19_i_; \
 	for (c19_i_ = 0; c19_i_ < AWS_NIN; c19_i_++) { g_aws_in[c19_i_].ptr = NULL; g_aws_in[c19_i_].len = 0; g_aws_in[c19_i_].blob = 0; } \
 	g_aws_nfix = 0; g_aws_fmt.n = 0; \
-	g_aws_n = 0; g_aws_time.time_calls = 0; g_aws_time.gm_valid = 0; \
+	g_aws_n = 0; g_aws_time.time_calls = 0; g_aws_time.gm_valid = 0; g_aws_time.fmt_calls = 0; \
 	IN(size_t, hx); g_c19.hx = hx; IN(size_t, bx); g_c19.bx = bx; } while (0)
